@@ -27,7 +27,9 @@ _spec.loader.exec_module(V)
 INT_TYPES = {"varint": None, "filesize": None, "unix_file_mode": None, "uint16": (0, 0xFFFF), "uint32": (0, 0xFFFFFFFF), "net.tcp.Port": (0, 0xFFFF), "net.udp.Port": (0, 0xFFFF)}
 TEXT_TYPES = ["string", "wstring", "uri"]
 ENCODABLE = z3.Star(z3.Union(z3.Range(chr(0), chr(0xD7FF)), z3.Range(chr(0xDC80), chr(0xDCFF)), z3.Range(chr(0xE000), chr(0x2FFFF))))
-EXTRA_VALUES = {"net.ipaddress": ["'255.255.255.255'", "'0.0.0.0'", "'::ffff:1.2.3.4'", "'2001:db8::1'"], "float": ["-0.0", "float('inf')", "5e-324"], "boolean": ["True", "False"],
+# (text with a surrogate outside the escape range U+DC80..U+DCFF has no encoding: the write is refused - what must not happen is that it comes back as other text)
+LONE = ["'\\ud800'", "'a\\udfffb'", "'\\udbff\\udc00'", "'caf\\udce9 \\ud83d'"]
+EXTRA_VALUES = {"string": LONE, "wstring": LONE[:1], "uri": LONE[:1], "stringlist": ["['x', '\\ud800']"], "dynamic": LONE[:1], "net.ipaddress": ["'255.255.255.255'", "'0.0.0.0'", "'::ffff:1.2.3.4'", "'2001:db8::1'"], "float": ["-0.0", "float('inf')", "5e-324"], "boolean": ["True", "False"],
                 "path": ["'relative/p'", "'C:\\\\Users\\\\x'", "'/'"], "datetime": ["DT(1, 1, 1, tzinfo=TZ(TD(0)))", "DT(9999, 12, 31, 23, 59, 59, 999999, tzinfo=TZ(TD(0)))", "DT(2021, 10, 31, 2, 30, tzinfo=TZ(TD(hours=-3, minutes=-30)))"],
                 "bytes": ["bytes(range(256))"], "command": ["'x'"], "dictlist": ["[{'a': [1, 2]}]", "[{'a': {'b': 1}, 'c': None}]"], "digest": ["('d41d8cd98f00b204e9800998ecf8427e', 'da39a3ee5e6b4b0d3255bfef95601890afd80709', 'e3b0c44298fc1c149afbf4c8996fb92427ae41e4649b934ca495991b7852b855')"]}
 
@@ -170,6 +172,29 @@ def build(tier="quick", seed=0):
         return before, res
 
     add("C01.roundtrip[written and read while fields are ignored for comparison]", th_ignore_scope, lambda w: {"call": "c01_ignore_scope", "args": {"x": w.get("x", 0), "s": w.get("s", "")}}, wit=lambda m_, p: {"x": model_value(m_, x), "s": model_value(m_, sv)})
+
+    # ---- a write that is refused (the record cannot be serialised) does not damage the stream: the records accepted before and after it come back
+    def th_refused_between():
+        A = it.call(RD, ["c01/a", [("varint", "n")]], {})
+        DL = it.call(RD, ["c01/dl", [("dictlist", "dl"), ("varint", "n")]], {})
+        good = [it.call(A, [], {"n": SInt(x)}), it.call(DL, [], {"dl": [{"k": "v"}], "n": SInt(y)}), it.call(A, [], {"n": SInt(y)})]
+        bad_rec = it.call(DL, [], {"dl": [{"k": {1, 2}}], "n": 1})  # an unpackable value inside a dictlist, first record of its type
+        fp = AbsFile(it, mode="wb")
+        w = it.call(st.g["RecordStreamWriter"], [fp], {})
+        it.call(it.getattr_(w, "write"), [good[0]], {})
+        try:
+            it.call(it.getattr_(w, "write"), [bad_rec], {})
+            refused = False
+        except PyRaise:
+            refused = True
+        for r in good[1:]:
+            it.call(it.getattr_(w, "write"), [r], {})
+        it.call(it.getattr_(w, "flush"), [], {})
+        rd = it.call(st.g["RecordStreamReader"], [AbsFile(it, fp.content())], {})
+        res = drain(it, it.call(it.getattr_(rd, "__iter__"), [], {}))
+        return [deep_obs(it, r) for r in good], (res if refused else ([], "the unpackable record was accepted"))
+
+    add("C01.roundtrip[a refused write between accepted ones]", th_refused_between, lambda w: {"call": "c01_refused_between", "args": {"x": w.get("x", 0)}}, wit=lambda m_, p: {"x": model_value(m_, x)})
 
     # ---- sequences, nested, grouped
     def th_sequence():
